@@ -226,7 +226,16 @@ _BIN = {
     "SLT": lambda a, b: int(_s(a) < _s(b)), "SGT": lambda a, b: int(_s(a) > _s(b)),
     "AND": lambda a, b: a & b, "OR": lambda a, b: a | b, "XOR": lambda a, b: a ^ b,
     "SHR": lambda a, b: (b >> a) if a < 256 else 0,  # note: SHR(shift=a, value=b)
+    "SHL": lambda a, b: (b << a) % W if a < 256 else 0,
+    "SAR": lambda a, b: (_s(b) >> min(a, 255)) % W,
+    "SDIV": lambda a, b: 0 if b == 0 else ((abs(_s(a)) // abs(_s(b))) * (1 if (_s(a) < 0) == (_s(b) < 0) else -1)) % W,
+    "SMOD": lambda a, b: 0 if b == 0 else ((abs(_s(a)) % abs(_s(b))) * (-1 if _s(a) < 0 else 1)) % W,
+    "BYTE": lambda a, b: (b >> (8 * (31 - a))) & 0xFF if a < 32 else 0,
+    "EXP": lambda a, b: pow(a, b, W),
+    "SIGNEXTEND": lambda a, b: b if a >= 31 else ((b & ((1 << (8 * a + 8)) - 1)) | ((W - (1 << (8 * a + 8))) if (b >> (8 * a + 7)) & 1 else 0)),
 }
+DIRTY = [0x1234, 0xFF7F, 0x80, 0x7F, 0xFF, 0x8000, 0x7FFF, 0x12345678, W - 1, W - 2, 1 << 255, (1 << 255) - 1, (1 << 255) + 0x34,
+         0xFFFFFFFFFFFFFF34, 0x100, 0xABCD00, 0]
 
 
 @dataclass
@@ -642,6 +651,9 @@ class Grammar:
             kinds += ["mulc", "modc"]
         if dyn:
             kinds += ["len", "len", "dword", "dhash"]
+        kinds += ["concop"]
+        if need == "concop":
+            kinds = ["concop"]
         if not self.refine:
             kinds = [k for k in kinds if k not in ("mul", "div", "mod")]
         if need == "refine":
@@ -656,6 +668,28 @@ class Grammar:
             kinds = [k for k in kinds if k in ("eq", "lt", "gt", "slt", "ltvar", "mask")] or kinds
         k = r.choice(kinds)
         env = {"args": wit, "storage": storage}
+        if k == "concop":
+            # a sub-expression whose operands are all concrete at run time (literals, values stored by setUp): the word instruction
+            # is evaluated by the engine's concrete fast path; dirty / boundary operands
+            op = r.choice(["SIGNEXTEND", "SIGNEXTEND", "SIGNEXTEND", "SAR", "SMOD", "SDIV", "BYTE", "SHL", "SHR", "EXP", "MOD", "DIV",
+                           "SLT", "SGT", "AND", "XOR", "SUB", "MUL"])
+
+            def operand(small):
+                if storage and r.random() < 0.35:
+                    return SLoad(r.choice(sorted(storage)))
+                if small:
+                    return Const(r.choice([0, 1, 2, 3, 7, 8, 15, 30, 31, 32, 33, 255, 256, 257, W - 1]))
+                return Const(r.choice(DIRTY + [self.word()]))
+
+            a = operand(op in ("SIGNEXTEND", "SAR", "BYTE", "SHL", "SHR"))
+            b = operand(op == "EXP")
+            e = Bin(op, a, b)
+            if stat and r.random() < 0.5:
+                # mixed with the symbolic parameter: arg == f(concrete operands)
+                i = r.choice(stat)
+                d = (wit[i] - e.ev(env)) % W
+                return Bin("EQ", Bin("SUB", Arg(i), Const(d)), e), "concop:" + op          # arg - d == f(concrete operands)
+            return Bin("EQ", e, Const(e.ev(env))), "concop:" + op
         if k in ("eq", "lt", "gt", "mask", "hash1", "add", "slt", "storage", "mulc", "modc"):
             i = r.choice([j for j in stat if params[j].typ == "int256"] if k == "slt" else stat)
             w = wit[i] % W
@@ -866,7 +900,7 @@ def gen_contract(rng, name="T", ntests=3, pool=(), with_helper=None, bytes_sizes
         setup += [("push", len(blob)), ("ref", "helper_blob"), ("push", 0), "CODECOPY",
                   ("push", len(blob)), ("push", 0), ("push", 0), "CREATE", ("push", 9), "SSTORE"]
         storage[9] = FIRST_CREATED
-    needs = (["refine"] if refine else []) + ["hash", "dyn", "storage", "cmp", None]
+    needs = (["refine"] if refine else []) + ["hash", "dyn", "storage", "cmp", "concop", None]
     rng.shuffle(needs)
     checks = []
     first_reach = rng.random() < 0.5
@@ -1377,6 +1411,8 @@ class TFn:
     body: list
     domains: list = field(default_factory=list)  # brute-force domain per argument (all static words)
     mutability: str = "nonpayable"
+    calldatas: list | None = None   # explicit argument encodings for the brute force (functions with dynamic parameters)
+    from_model: object = None       # f(model: {name: int}) -> argument encoding, to replay a printed counterexample call
 
     @property
     def canon(self):
@@ -1513,11 +1549,15 @@ class Scenario:
         out = []
         for t, fn in self.callable():
             sel = asm.selector(fn.canon).to_bytes(4, "big")
-            for args in itertools.product(*fn.domains):
-                cd = sel + b"".join((a % W).to_bytes(32, "big") for a in args)
+            if fn.calldatas is not None:
+                encs = [(f"#{j}:{len(e)}B", e) for j, e in enumerate(fn.calldatas)]
+            else:
+                encs = [(list(args), b"".join((a % W).to_bytes(32, "big") for a in args)) for args in itertools.product(*fn.domains)]
+            for lab, enc in encs:
+                cd = sel + enc
                 for s in self.sender_domain():
                     for dt in self.tsdeltas:
-                        out.append((f"{t.name}.{fn.canon}{list(args)}@{s:x}+{dt}", s, t.addr, cd, dt))
+                        out.append((f"{t.name}.{fn.canon}{lab}@{s:x}+{dt}", s, t.addr, cd, dt))
         return out
 
 
